@@ -764,6 +764,27 @@ func c16Run(c *fw.Ctx, i int) {
 		}
 		return d
 	}
+	// Length of anything that is not a list is 1 (documented), whatever it is
+	// made of: objects with any number of fields, the places map, a number
+	{
+		n, _ := c16Eval(".Individuals | Length", []*gedcom.Document{fresh()})
+		for _, lq := range []struct {
+			q    string
+			want interface{}
+		}{
+			{`{} | Length`, 1}, {`{a: 1, b: 2} | Length`, 1}, {`{a: .Individuals, b: .Families, c: 3} | Length`, 1}, {`.Places | Length`, 1},
+			{`.Individuals | Length | Length`, 1}, {`{a: 1} | Length`, 1}, {`{x: {a: 1, b: 2, c: 3} | Length}`, map[string]interface{}{"x": 1}},
+			{`.Individuals | Only({a: .Pointer, b: .Name} | Length = 1) | Length`, n}, {`.Individuals | Only({} | Length = 0) | Length`, 0},
+		} {
+			got, err := c16Eval(lq.q, []*gedcom.Document{fresh()})
+			c.Count("law-length-of-a-non-list", 1)
+			gn, _ := c16Norm(got)
+			wn, _ := c16Norm(lq.want)
+			if err != nil || !c16Same(gn, wn) {
+				c.Violation("law-length-of-a-non-list", fmt.Sprintf("%s = %s (err %v), want %s: the length of anything that is not a list is 1", lq.q, c16JSON(got), err, c16JSON(lq.want)), map[string]interface{}{"query": lq.q, "gedcom": text})
+			}
+		}
+	}
 	sawEmpty, sawEmptyNonNil := false, false
 	gg := &c16Gen{r: r, emptyFirstLast: &sawEmpty, emptyNonNil: &sawEmptyNonNil}
 	for k := 0; k < 40; k++ {
